@@ -143,6 +143,7 @@ def run(ctx):
     worlds += [cw.render('c10-tie-%d' % k, sp, ORACLES) for k, sp in enumerate(cw.tie_specs())]
     worlds += [cw.render('c10-eol-%d' % k, sp, ORACLES) for k, sp in enumerate(cw.eol_specs())]
     worlds += [cw.render('c10-perm-%d' % k, sp, ORACLES) for k, sp in enumerate(cw.perm_specs())]
+    worlds += [cw.render('c10-lex-%d' % k, sp, ORACLES) for k, sp in enumerate(cw.lex_specs())]
     worlds += cw.junk_worlds('c10')
     worlds += cw.extra_worlds('c10', g, ctx.tier, ORACLES)
     run_suite(ctx, 'clean.C10', worlds, known=known, chunk=200)
